@@ -167,7 +167,7 @@ func (fr *frame) reachOverride(t *Term) {}
 func (e *Encoder) unmodelledCall(fr *frame, name string, args []*SVal, ci ssa.CallInstruction, resT types.Type) *SVal {
 	if e.initMode {
 		// package initialisers: dependency functions are assumed not to write this module's variables
-		e.trusted["package initialisers: calls into dependencies ("+shortName(name)+", ...) do not modify the module's package-level variables"] = true
+		e.trusted["package initialisers: calls into dependency functions do not modify the module's package-level variables"] = true
 		return e.freshResult("ret."+shortName(name), resT)
 	}
 	e.unmodelled[name] = true
@@ -774,6 +774,109 @@ func init() {
 			}
 			return r
 		},
+		"(cipher.Block).BlockSize": func(e *Encoder, fr *frame, args []*SVal, ci ssa.CallInstruction, resT types.Type) *SVal {
+			// every cipher.Block in this code base comes from crypto/aes.NewCipher
+			return &SVal{K: KScalar, Typ: types.Typ[types.Int], T: e.c.BVLit(16, 64)}
+		},
+		"crypto/cipher.NewCBCDecrypter": func(e *Encoder, fr *frame, args []*SVal, ci ssa.CallInstruction, resT types.Type) *SVal {
+			return e.newCBC(fr, args, ci, resT, true)
+		},
+		"crypto/cipher.NewCBCEncrypter": func(e *Encoder, fr *frame, args []*SVal, ci ssa.CallInstruction, resT types.Type) *SVal {
+			return e.newCBC(fr, args, ci, resT, false)
+		},
+		"(cipher.BlockMode).CryptBlocks": func(e *Encoder, fr *frame, args []*SVal, ci ssa.CallInstruction, resT types.Type) *SVal {
+			return e.cryptBlocks(fr, args, ci, resT)
+		},
+		"crypto/aes.NewCipher": func(e *Encoder, fr *frame, args []*SVal, ci ssa.CallInstruction, resT types.Type) *SVal {
+			c := e.c
+			key := args[0]
+			okLen := c.Or(c.Eq(key.Len, c.BVLit(16, 64)), c.Eq(key.Len, c.BVLit(24, 64)), c.Eq(key.Len, c.BVLit(32, 64)))
+			tt := resT.(*types.Tuple)
+			blk := e.freshVal("aesblock", tt.At(0).Type())
+			errv := e.freshVal("aeserr", tt.At(1).Type())
+			e.assume(c.Eq(c.Eq(errv.Tag, c.Int(0)), okLen))
+			e.assume(c.Implies(okLen, c.Not(c.Eq(blk.Tag, c.Int(0)))))
+			// ghost: the key bytes of the block (first 16 bytes)
+			mem := e.get(e.cur, "mem:bv8", Arr(RefS, Arr(BV64, BV8)))
+			karr := c.Select(mem, key.Base)
+			for k := 0; k < 16; k++ {
+				kk := c.BVLit(uint64(k), 64)
+				e.assume(c.Eq(c.Select(c.App("aesKeyOf", Arr(BV64, BV8), blk.T), kk), c.Select(karr, c.BVBin("bvadd", key.Off, kk))))
+			}
+			return &SVal{K: KTuple, Typ: resT, Fields: []*SVal{blk, errv}}
+		},
+		"crypto/rand.Read": func(e *Encoder, fr *frame, args []*SVal, ci ssa.CallInstruction, resT types.Type) *SVal {
+			c := e.c
+			b := args[0]
+			if e.pure == 0 {
+				e.frameCheckLoc(fr, assignLoc{prefix: "mem:bv8", idx: b.Base}, ci.Pos(), "rand.Read")
+			}
+			// fills all of b with the next draw of the random stream; never fails
+			e.randDraws++
+			draw := c.Sym(fmt.Sprintf("rand.draw%d", e.randDraws), Arr(BV64, BV8))
+			mem := e.get(e.cur, "mem:bv8", Arr(RefS, Arr(BV64, BV8)))
+			old := c.Select(mem, b.Base)
+			nd := c.Fresh("randfill", Arr(BV64, BV8))
+			k := c.Bound("k", BV64)
+			inr := c.And(c.BVCmp("bvule", b.Off, k), c.BVCmp("bvult", k, c.BVBin("bvadd", b.Off, b.Len)))
+			e.assumeFact(c.Forall([]*Term{k}, c.Eq(c.Select(nd, k), c.Ite(inr, c.Select(draw, c.BVBin("bvsub", k, b.Off)), c.Select(old, k)))))
+			e.set(e.cur, "mem:bv8", c.Store(mem, b.Base, nd))
+			tt := resT.(*types.Tuple)
+			return &SVal{K: KTuple, Typ: resT, Fields: []*SVal{{K: KScalar, Typ: tt.At(0).Type(), T: b.Len}, e.zero(tt.At(1).Type())}}
+		},
+		"(hash.Hash).Write": func(e *Encoder, fr *frame, args []*SVal, ci ssa.CallInstruction, resT types.Type) *SVal {
+			c := e.c
+			h, p := args[0], args[1]
+			st := e.hashState(h)
+			mem := e.get(e.cur, "mem:bv8", Arr(RefS, Arr(BV64, BV8)))
+			arr := c.Select(mem, p.Base)
+			var ns *Term
+			if p.Len.IsLit() && p.Len.V <= 64 {
+				ns = st
+				for k := uint64(0); k < p.Len.V; k++ {
+					ns = c.App("hAbsorb1", IntS, ns, c.Select(arr, c.BVBin("bvadd", p.Off, c.BVLit(k, 64))))
+				}
+			} else {
+				ns = c.App("hAbsorbN", IntS, st, arr, p.Off, p.Len)
+			}
+			e.setHashState(fr, h, ns, ci)
+			tt := resT.(*types.Tuple)
+			return &SVal{K: KTuple, Typ: resT, Fields: []*SVal{{K: KScalar, Typ: tt.At(0).Type(), T: p.Len}, e.zero(tt.At(1).Type())}}
+		},
+		"(hash.Hash).Reset": func(e *Encoder, fr *frame, args []*SVal, ci ssa.CallInstruction, resT types.Type) *SVal {
+			h := args[0]
+			e.setHashState(fr, h, e.c.App("hInit", IntS, h.T), ci)
+			return &SVal{K: KTuple, Typ: resT}
+		},
+		"(hash.Hash).Size": func(e *Encoder, fr *frame, args []*SVal, ci ssa.CallInstruction, resT types.Type) *SVal {
+			return &SVal{K: KScalar, Typ: types.Typ[types.Int], T: e.hashSize(args[0])}
+		},
+		"(hash.Hash).BlockSize": func(e *Encoder, fr *frame, args []*SVal, ci ssa.CallInstruction, resT types.Type) *SVal {
+			r := e.freshVal("blocksize", types.Typ[types.Int])
+			e.assumeFact(e.c.And(e.c.BVCmp("bvslt", e.c.BVLit(0, 64), r.T), e.c.BVCmp("bvsle", r.T, e.c.BVLit(256, 64))))
+			return r
+		},
+		"(hash.Hash).Sum": func(e *Encoder, fr *frame, args []*SVal, ci ssa.CallInstruction, resT types.Type) *SVal {
+			c := e.c
+			h, b := args[0], args[1]
+			st := e.hashState(h)
+			size := e.hashSize(h)
+			dig := c.App("hDigest", Arr(BV64, BV8), h.T, st)
+			ref := e.newAlloc()
+			mem := e.get(e.cur, "mem:bv8", Arr(RefS, Arr(BV64, BV8)))
+			var content *Term
+			if b.Len.IsLit() && b.Len.V == 0 {
+				content = dig
+			} else {
+				barr := c.Select(mem, b.Base)
+				content = c.Fresh("sum", Arr(BV64, BV8))
+				k := c.Bound("k", BV64)
+				e.assumeFact(c.Forall([]*Term{k}, c.Eq(c.Select(content, k), c.Ite(c.BVCmp("bvult", k, b.Len), c.Select(barr, c.BVBin("bvadd", b.Off, k)), c.Select(dig, c.BVBin("bvsub", k, b.Len))))))
+			}
+			e.set(e.cur, "mem:bv8", c.Store(mem, ref, content))
+			n := c.BVBin("bvadd", b.Len, size)
+			return &SVal{K: KSlice, Typ: resT, Base: ref, Off: c.BVLit(0, 64), Len: n, Cap: n}
+		},
 		"(gopacket.DecodeFeedback).SetTruncated": func(e *Encoder, fr *frame, args []*SVal, ci ssa.CallInstruction, resT types.Type) *SVal {
 			return &SVal{K: KTuple, Typ: resT}
 		},
@@ -813,12 +916,18 @@ func init() {
 
 // bsum(arr, from, to): uninterpreted fold with unfolding facts instantiated at use.
 func (e *Encoder) bsum(arr, from, to *Term, depth int) *Term {
+	t := e.c.App("bsum8", BV8, arr, from, to)
+	e.bsumAxioms(t, depth)
+	return t
+}
+
+func (e *Encoder) bsumAxioms(t *Term, depth int) {
 	c := e.c
-	t := c.App("bsum8", BV8, arr, from, to)
 	if e.ufAxiomSeen[t] {
-		return t
+		return
 	}
 	e.ufAxiomSeen[t] = true
+	arr, from, to := t.Args[0], t.Args[1], t.Args[2]
 	// constant small ranges are fully unfolded
 	d := c.BVBin("bvsub", to, from)
 	if d.IsLit() && d.V <= 16 {
@@ -827,7 +936,7 @@ func (e *Encoder) bsum(arr, from, to *Term, depth int) *Term {
 			sum = c.BVBin("bvadd", sum, c.Select(arr, c.BVBin("bvadd", from, c.BVLit(k, 64))))
 		}
 		e.assumeFact(c.Eq(t, sum))
-		return t
+		return
 	}
 	e.assumeFact(c.Implies(c.Eq(from, to), c.Eq(t, c.BVLit(0, 8))))
 	if depth < 1 {
@@ -835,7 +944,26 @@ func (e *Encoder) bsum(arr, from, to *Term, depth int) *Term {
 		pt := e.bsum(arr, from, prev, depth+1)
 		e.assumeFact(c.Implies(c.BVCmp("bvult", from, to), c.Eq(t, c.BVBin("bvadd", pt, c.Select(arr, prev)))))
 	}
-	return t
+}
+
+// closeAxioms instantiates the unfolding facts of every uninterpreted fold
+// application occurring in t (needed for terms produced by substitution).
+func (e *Encoder) closeAxioms(t *Term) {
+	seen := map[*Term]bool{}
+	var rec func(x *Term)
+	rec = func(x *Term) {
+		if seen[x] {
+			return
+		}
+		seen[x] = true
+		if x.Op == "app" && x.Name == "bsum8" && !x.hb {
+			e.bsumAxioms(x, 0)
+		}
+		for _, a := range x.Args {
+			rec(a)
+		}
+	}
+	rec(t)
 }
 
 func (ct *Contract) isEmpty() bool {
@@ -849,6 +977,11 @@ func (ct *Contract) isEmpty() bool {
 func (w *World) implementers(it types.Type, m *types.Func) []types.Type {
 	iface, ok := it.Underlying().(*types.Interface)
 	if !ok {
+		return nil
+	}
+	// closed world only for interfaces declared by the module itself
+	nt, isNamed := it.(*types.Named)
+	if !isNamed || nt.Obj().Pkg() == nil || !strings.HasPrefix(nt.Obj().Pkg().Path(), modPath) {
 		return nil
 	}
 	w.mu.Lock()
@@ -1012,4 +1145,105 @@ func (e *Encoder) dispatchFunc(fr *frame, fv *SVal, cands []*ssa.Function, args 
 func (e *Encoder) realFloor(t *Term) *Term {
 	c := e.c
 	return c.mk(&Term{Op: "to_real", Args: []*Term{c.mk(&Term{Op: "to_int", Args: []*Term{t}, S: IntS})}, S: RealS})
+}
+
+type cbcGhost struct {
+	dec    bool
+	block  *SVal
+	iv     *Term // array snapshot
+	ivOff  *Term
+	out    *Term // result bytes of the (last) CryptBlocks call, indexed from 0
+	srcLen *Term
+}
+
+func (e *Encoder) newCBC(fr *frame, args []*SVal, ci ssa.CallInstruction, resT types.Type, dec bool) *SVal {
+	c := e.c
+	blk, iv := args[0], args[1]
+	ok := c.Eq(iv.Len, c.BVLit(16, 64))
+	e.oblige("panic", fr.anchorFor(e, ci.Value(), "NewCBC"), "cipher.NewCBC*: IV length must equal the block size", ok, ci.Pos())
+	e.assume(ok)
+	nz := c.Not(c.Eq(blk.Tag, c.Int(0)))
+	if !nz.IsTrue() {
+		e.oblige("nil", fr.anchorFor(e, ci.Value(), "NewCBC")+":block", "cipher.NewCBC* on a nil cipher.Block", nz, ci.Pos())
+		e.assume(nz)
+	}
+	mode := e.freshVal("cbcmode", resT)
+	e.assumeFact(c.Not(c.Eq(mode.Tag, c.Int(0))))
+	mem := e.get(e.cur, "mem:bv8", Arr(RefS, Arr(BV64, BV8)))
+	if e.cbc == nil {
+		e.cbc = map[*Term]*cbcGhost{}
+	}
+	e.cbc[mode.T] = &cbcGhost{dec: dec, block: blk, iv: c.Select(mem, iv.Base), ivOff: iv.Off}
+	return mode
+}
+
+func (e *Encoder) cryptBlocks(fr *frame, args []*SVal, ci ssa.CallInstruction, resT types.Type) *SVal {
+	c := e.c
+	mode, dst, src := args[0], args[1], args[2]
+	ok := c.And(c.Eq(c.BVBin("bvurem", src.Len, c.BVLit(16, 64)), c.BVLit(0, 64)), c.BVCmp("bvule", src.Len, dst.Len))
+	e.oblige("panic", fr.anchorFor(e, ci.Value(), "CryptBlocks"), "CryptBlocks: input is whole blocks and the output is large enough", ok, ci.Pos())
+	e.assume(ok)
+	if e.pure == 0 {
+		e.frameCheckLoc(fr, assignLoc{prefix: "mem:bv8", idx: dst.Base}, ci.Pos(), "CryptBlocks")
+	}
+	mem := e.get(e.cur, "mem:bv8", Arr(RefS, Arr(BV64, BV8)))
+	srcArr := c.Select(mem, src.Base)
+	old := c.Select(mem, dst.Base)
+	g := e.cbc[mode.T]
+	name := "cbcX"
+	var keyT, ivT, ivOff *Term
+	if g != nil {
+		if g.dec {
+			name = "cbcD"
+		} else {
+			name = "cbcE"
+		}
+		keyT = c.App("aesKeyOf", Arr(BV64, BV8), g.block.T)
+		ivT, ivOff = g.iv, g.ivOff
+	} else {
+		keyT = c.Fresh("unknownkey", Arr(BV64, BV8))
+		ivT, ivOff = c.Fresh("unknowniv", Arr(BV64, BV8)), c.BVLit(0, 64)
+	}
+	// result bytes, indexed from 0; an uninterpreted function of key, IV and input
+	out := c.App(name, Arr(BV64, BV8), keyT, ivT, ivOff, srcArr, src.Off, src.Len)
+	if g != nil && e.pure == 0 {
+		g.out, g.srcLen = out, src.Len
+	}
+	nd := c.Fresh("crypt", Arr(BV64, BV8))
+	k := c.Bound("k", BV64)
+	inr := c.And(c.BVCmp("bvule", dst.Off, k), c.BVCmp("bvult", k, c.BVBin("bvadd", dst.Off, src.Len)))
+	e.assumeFact(c.Forall([]*Term{k}, c.Eq(c.Select(nd, k), c.Ite(inr, c.Select(out, c.BVBin("bvsub", k, dst.Off)), c.Select(old, k)))))
+	e.set(e.cur, "mem:bv8", c.Store(mem, dst.Base, nd))
+	return &SVal{K: KTuple, Typ: resT}
+}
+
+// ---- ghost model of hash.Hash --------------------------------------------------------------------
+//
+// A hash object (identified by the Ref in its interface value) has an
+// abstract absorb state (Int). hInit(obj) is its freshly keyed/reset state,
+// hAbsorb1/hAbsorbN extend it, hDigest(obj, state) are the bytes Sum appends
+// and hSize(obj) how many. All are uninterpreted: equal inputs give equal
+// outputs and nothing else is assumed.
+
+func (e *Encoder) hashState(h *SVal) *Term {
+	arr := e.get(e.cur, "ghost:hash#st", Arr(RefS, IntS))
+	return e.c.Select(arr, h.T)
+}
+
+func (e *Encoder) setHashState(fr *frame, h *SVal, ns *Term, ci ssa.CallInstruction) {
+	arr := e.get(e.cur, "ghost:hash#st", Arr(RefS, IntS))
+	if e.pure == 0 {
+		e.frameCheckLoc(fr, assignLoc{prefix: "ghost:hash#st", idx: h.T, typ: types.Typ[types.Int]}, ci.Pos(), "hash state update")
+	}
+	e.set(e.cur, "ghost:hash#st", e.c.Store(arr, h.T, ns))
+}
+
+func (e *Encoder) hashSize(h *SVal) *Term {
+	c := e.c
+	t := c.App("hSize", BV64, h.T)
+	if !e.ufAxiomSeen[t] {
+		e.ufAxiomSeen[t] = true
+		e.assumeFact(c.And(c.BVCmp("bvule", c.BVLit(1, 64), t), c.BVCmp("bvule", t, c.BVLit(64, 64))))
+	}
+	return t
 }
